@@ -160,6 +160,9 @@ theorem PhaseOk.completeBlock2 (cfg : Cfg) (t : Req) (r : Resp) : PhaseOk cfg (c
   | none => rw [completeBlock2_none hb]; simp [PhaseOk]
   | some b2 =>
     rw [completeBlock2_some hb]
+    by_cases hst : b2.start ≠ 0
+    · simp [hst, PhaseOk]
+    rw [if_neg hst]
     by_cases hm : b2.more = true
     · by_cases hn : b2.num ≠ 0
       · simp [hm, hn, PhaseOk]
@@ -217,6 +220,9 @@ theorem PhaseOk.step {cfg : Cfg} {ph : Phase} (h : PhaseOk cfg ph) (r : Resp) :
     | none => rw [step_b2_none hb]; simp [PhaseOk]
     | some b2 =>
       rw [step_b2_some hb]
+      by_cases hc : r.code ≠ a.code
+      · simp [hc, PhaseOk]
+      rw [if_neg hc]
       by_cases hv : b2.validFor r.payload.length = true
       · by_cases hs : b2.start ≠ a.payload.length
         · simp [hv, hs, PhaseOk]
